@@ -131,8 +131,15 @@ func runGo(dir string, args ...string) (string, error) {
 	cmd := exec.Command("go", args...)
 	cmd.Dir = dir
 	cmd.Env = GoEnv()
-	out, err := cmd.CombinedOutput()
+	out, err := RunLocked(cmd)
 	return string(out), err
+}
+
+// RunLocked runs a command that uses the dedicated build cache, holding the cache's advisory
+// lock in shared mode (the trimmer takes it exclusively).
+func RunLocked(cmd *exec.Cmd) ([]byte, error) {
+	defer lockFile(syscall.LOCK_SH)()
+	return cmd.CombinedOutput()
 }
 
 // ---------------------------------------------------------------- generator workers
